@@ -64,6 +64,16 @@ def menu_fn(w):
         add("delete_if_invalid_object(alg=%r)" % v, "delete_if_invalid_object(unsupported algorithm)", lambda w, s, v=v: s.delete_if_invalid_object(om(w), "abc", v, 5), [c])
     add("store_object(checksum without algorithm)", "store_object(pairing)", lambda w, s: s.store_object(Q, good(w), None, "abc", None), [V])
     add("store_object(algorithm without checksum)", "store_object(pairing)", lambda w, s: s.store_object(Q, good(w), None, None, "md5"), [V])
+    # the one bad parameter (a missing or blank checksum) next to every valid choice of the other algorithm arguments,
+    # equal and different spellings included
+    for a in (None, "md5", "sha224", "sha256", "SHA-256"):
+        for ca in ("md5", "sha224", "sha256", "SHA-256"):
+            for ck in (None, " "):
+                if a is None and ck is None and ca == "md5":
+                    continue
+                add("store_object(additional=%r, checksum=%r, checksum_algorithm=%r)" % (a, ck, ca),
+                    "store_object(pairing, additional algorithm given)",
+                    lambda w, s, a=a, ca=ca, ck=ck: s.store_object(Q, good(w), a, ck, ca), [V])
     add("delete_if_invalid_object(meta=None)", "delete_if_invalid_object(bad descriptor)", lambda w, s: s.delete_if_invalid_object(None, "abc", "md5", 5), [V])
     add("delete_if_invalid_object(meta=dict)", "delete_if_invalid_object(bad descriptor)", lambda w, s: s.delete_if_invalid_object({}, "abc", "md5", 5), [V])
     # two bad parameters at a time: any of the two documented classes
